@@ -1,7 +1,7 @@
 (** Executable entry point for C08: the carrier-generic models run at dual
     numbers over exact rationals = forward-mode derivative of the model.
     ExtrOcamlBasic only: Z, positive, Q, nat stay inductive. *)
-From Dino Require Import Base.Ops Base.Sums Base.Ord Model.Dual Model.Sigma Extract.Common.
+From Dino Require Import Base.Ops Base.Sums Base.Ord Model.Dual Model.Sigma Model.Implicit Model.PrimEq Extract.Common.
 Require Extraction.
 Require Import ExtrOcamlBasic.
 
@@ -26,6 +26,14 @@ Definition run_C08 (cmd : Z) (ints : list Z) (arrs : list (list Q)) : option (li
   | 4%Z => Some (out K ((if intb ints 1%nat then geo_diff_sparse else geo_diff_dense)
                           K (dq (scalar arrs 3%nat 0%nat)) (dc (A 0%nat)) (dv (A 1%nat) (A 2%nat))))
   | 5%Z => Some (out K (upwind_vertical_advection K (dc (A 0%nat)) (dv (A 1%nat) (A 3%nat)) (dv (A 2%nat) (A 4%nat))))
+  (* primitive-equation column algebra (Model/PrimEq.v, Model/Implicit.v) at dual numbers:
+     arrs = [0 ls; 1 b; 2 Tref; 3 [R; kappa]; 4.. data; ... tangents] *)
+  | 6%Z => let c := @mkPE DQ K (dq (scalar arrs 3%nat 0%nat)) (dq (scalar arrs 3%nat 1%nat)) (dc (A 0%nat)) (dc (A 1%nat)) (dc (A 2%nat)) in
+           (* _t_omega_over_sigma_sp(T_field, g_term, v_dot_grad): data 4,5,6 tangents 7,8,9 *)
+           Some (out K (t_omega_over_sigma_sp c (dv (A 4%nat) (A 7%nat)) (dv (A 5%nat) (A 8%nat)) (dv (A 6%nat) (A 9%nat))))
+  | 7%Z => let c := @mkPE DQ K (dq (scalar arrs 3%nat 0%nat)) (dq (scalar arrs 3%nat 1%nat)) (dc (A 0%nat)) (dc (A 1%nat)) (dc (A 2%nat)) in
+           (* get_temperature_implicit(divergence): data 4 tangent 5; ints[1] = sparse *)
+           Some (out K ((if intb ints 1%nat then temp_implicit_sparse else temp_implicit_dense) c (dv (A 4%nat) (A 5%nat))))
   | _ => None
   end.
 
